@@ -24,15 +24,27 @@ class Compound(Object):
     __mapper_args__ = {"polymorphic_identity": "compound"}
 
     def __call__(self):
-        return self.cls(self.left(), self.right())
+        return self.cls(*(child() for child in self.children))
+
+    @staticmethod
+    def _operands(compound):
+        """
+        The objects a compound is built from, in constructor order: a pair for
+        arithmetic and comparisons, two assertions for a chained assertion and
+        a single object for a modified prior.
+        """
+        if hasattr(compound, "assertion_1"):
+            return [compound.assertion_1, compound.assertion_2]
+        if hasattr(compound, "left"):
+            return [compound.left, compound.right]
+        return [compound.prior]
 
     @classmethod
     def _from_object(cls, compound):
         return Compound(
             compound_type=compound.__class__.__name__,
             children=[
-                Object.from_object(compound.left),
-                Object.from_object(compound.right),
+                Object.from_object(operand) for operand in cls._operands(compound)
             ],
             cls=type(compound),
         )
